@@ -25,7 +25,7 @@ pub struct Workload {
 	pub btree: bool,
 }
 
-const LENS: [usize; 5] = [0, 20, 300, 5_000, 40_000];
+const LENS: [usize; 6] = [0, 20, 300, 5_000, 40_000, 6 << 20];
 
 fn value(key: u16, class: u8, client: usize, t: usize) -> Vec<u8> {
 	let len = LENS[class as usize % LENS.len()];
@@ -45,6 +45,18 @@ pub fn workload() -> impl Strategy<Value = Workload> {
 	let tx = proptest::collection::vec((0u16..8, 0u8..5), 1..=4);
 	let client = proptest::collection::vec(tx, 3..12);
 	(proptest::collection::vec(client, 1..=2), prop_oneof![3 => 0u16..40, 2 => 40u16..400], any::<bool>()).prop_map(|(clients, fault_at, btree)| Workload { clients, fault_at, btree })
+}
+
+/// Bursts beyond the 16 MiB commit-queue limit: a client is throttled on the full queue at the
+/// moment the workers fail (the failing worker has to wake it, and it must not go back to sleep).
+pub fn workload_burst() -> impl Strategy<Value = Workload> {
+	let big = (0u16..8).prop_map(|k| vec![(k, 5u8)]);
+	let small = proptest::collection::vec((0u16..8, 0u8..4), 1..=3);
+	let client = (proptest::collection::vec(big, 3..=5), proptest::collection::vec(small, 1..4)).prop_map(|(mut b, s)| {
+		b.extend(s);
+		b
+	});
+	(proptest::collection::vec(client, 1..=2), 0u16..30, any::<bool>()).prop_map(|(clients, fault_at, btree)| Workload { clients, fault_at, btree })
 }
 
 fn options(dir: &Path, wl: &Workload, background: bool) -> Options {
